@@ -442,6 +442,11 @@ class Real:
                 finally:
                     self.quiet = False
                 self.removed.add(ev['ns'])
+                # generators of that namespace that have not started: their traditional operation now answers
+                # CIM_ERR_INVALID_NAMESPACE (ExecQuery is refused before the mock looks at the namespace)
+                for m in self.meta.values():
+                    if m['state'] == 'new' and m['ev']['ns'] == ev['ns'] and m['ev']['fam'] != 6:
+                        m['terr'], m['expected'] = 3, []
             return {'ok': None}, self.conv_log()
         j = ev['g']
         m = self.meta[j]
@@ -615,7 +620,7 @@ def gen_case(rng, thorough):
                     waiting.add(ng)
             ng += 1
             continue
-        if not removed and not waiting and ng and rng.random() < (0.12 if style == 'toggle' else 0.03):
+        if not removed and ng and rng.random() < (0.12 if style == 'toggle' else 0.03):
             evs.append({'ev': 'rmns', 'ns': 1})
             removed = True
             continue
@@ -891,6 +896,13 @@ def directed_cases():
                              nx(0, mx) + [dict(call)] + nx(1)):
                     evs = [dict(call)] + nx(0) + [{'ev': 'rmns', 'ns': 1}] + tail
                     out.append({'use': use, 'disabled': False, 'n': 3, 'events': evs, 'style': 'directed'})
+    # ... and the namespace removed before the generator's first next(): INVALID_NAMESPACE in every mode
+    for fam in range(6):
+        for use in (None, True, False):
+            for disabled in (False, True):
+                call = dict(base, fam=fam, ns=1)
+                evs = [dict(call), {'ev': 'rmns', 'ns': 1}] + nx(0, 2) + [dict(call)] + nx(1)
+                out.append({'use': use, 'disabled': disabled, 'n': 3, 'events': evs, 'style': 'directed'})
     # the class given as CIMClassName carrying the namespace (namespace=None)
     for fam in (0, 1):
         for use in (None, True, False):
